@@ -12,7 +12,7 @@ RULE = ('real threads under a deterministic line-granularity scheduler (sys.sett
         'thread B parses on the same Licensing to completion and thread C constructs another Licensing and parses; then A resumes. '
         'The subsequent parse: on a Licensing that has already parsed one text, A parses another text (or the same) and is preempted '
         'before every k-th line while B parses the previous (or another) text. Construction meanwhile: A is preempted before every k-th '
-        'line of its first parse while another thread constructs a Licensing over 1200 keys never seen before; the simple tokenizer (tokenize / parse / combine_expressions with simple=True) from two threads with every single preemption; queries (key listings, validation of keys, dedup, is_equivalent) on nested expression objects (depths 12, 120, 600) from two threads with two preemption points (counted from the first and from the last line of each call); the index loaders (build_licensing, build_spdx_licensing over a small index) preempted before their k-th line while another thread parses a text with words that are not valid keys on a warm Licensing. '
+        'line of its first parse while another thread constructs a Licensing over 1200 keys never seen before; the simple tokenizer (tokenize / parse / combine_expressions with simple=True) from two threads with every single preemption; queries (key listings, validation of keys, dedup, is_equivalent) on nested expression objects (depths 12, 120, 600) from two threads with two preemption points (counted from the first and from the last line of each call) and with a schedule found on the run (the first thread is stopped as soon as a setting all threads share differs from what it was, the second as soon as it changes again); the index loaders (build_licensing, build_spdx_licensing over a small index) preempted before their k-th line while another thread parses a text with words that are not valid keys on a warm Licensing. '
         'Spec: every result equals the result of the call run alone. Correspondence: the sequence of protocol steps the threads '
         'took (read shared / allocate / add / make_automaton / publish / use) is replayed on the Lean protocol model and the '
         'tokenizer each thread used (entries, finalised) must be the one the model says. non-trivial = the preemption falls inside '
@@ -208,6 +208,77 @@ class Prop(BaseProp):
 
     # nesting depths of the expression objects of the `deep` scenario: well inside what the interpreter walks by default, and well
     # beyond it (nothing near the limit: there an equivalent rewrite that adds a frame per level changes the outcome)
+    @staticmethod
+    def settings():
+        """what every thread of the process shares beside the Licensing: interpreter-wide settings and the plain-valued globals and
+        class attributes of the library's modules"""
+        import sys
+        out = [sys.getrecursionlimit(), sys.getswitchinterval()]
+        for mod in (le, impl.ac):
+            for name, v in sorted(vars(mod).items()):
+                if isinstance(v, (bool, int, float, str, type(None))) and not name.startswith('__'):
+                    out.append((mod.__name__, name, v))
+                elif isinstance(v, type) and getattr(v, '__module__', None) == mod.__name__:
+                    for a, w in sorted(vars(v).items()):
+                        if isinstance(w, (bool, int, float, str, type(None))) and not a.startswith('__'):
+                            out.append((v.__name__, a, w))
+        return out
+
+    def eval_adaptive(self, drv, case, solo_cache={}):
+        """two queries on nested expression objects, the schedule found on the run: A runs line by line until something every
+        thread shares (an interpreter-wide setting, a plain global or class attribute of the library) differs from what it was;
+        then B runs line by line until that changes again; then A finishes, then B. On code that changes no shared setting this is
+        A, then B. Each must return what it returns alone, and the settings must be back afterwards."""
+        import sys
+        ti, depth, qi = case['table'], case['depth'], case['query']
+        table, text0 = TABLES[ti]
+        qname, q = self.QUERIES[qi]
+        L = le.Licensing(impl.table_objs(table))
+        L.parse(text0)
+        ea, eb = L.parse(self.deep_text(depth, 'mit')), L.parse(self.deep_text(max(depth - 7, 1), 'gpl 2.0'))
+        base = self.settings()
+        limit = sys.getrecursionlimit()
+
+        def res(r):
+            return ['ok', r[1]] if r[0] == 'ok' else [r[0], r[1]]
+        key = ('adaptive', ti, depth, qi)
+        if key not in solo_cache:
+            solo_cache[key] = [res(sched.run([lambda: q(L, ea)], lambda i, r, st: (r[0], BIG))[0][0].result),
+                               res(sched.run([lambda: q(L, eb)], lambda i, r, st: (r[0], BIG))[0][0].result)]
+        want = solo_cache[key]
+        state = {'phase': 1, 'seen': None}
+
+        def sf(i, runnable, steps):
+            cur = self.settings()
+            if state['phase'] == 1:
+                if 't0' in runnable and cur == base:
+                    return ('t0', 1)
+                state['phase'], state['seen'] = 2, cur
+            if state['phase'] == 2:
+                if 't1' in runnable and cur == state['seen']:
+                    return ('t1', 1)
+                state['phase'] = 3
+            if 't0' in runnable:
+                return ('t0', BIG)
+            return ('t1', BIG)
+        try:
+            ts, abstract = sched.run([lambda: q(L, ea), lambda: q(L, eb)], sf)
+        except RuntimeError as e:
+            return Verdict('spec', case, str(e))
+        finally:
+            after = self.settings()
+            sys.setrecursionlimit(limit)
+        got = [res(t.result) for t in ts]
+        tags = ['adaptive', 'shared setting touched=%s' % (state['seen'] is not None and state['seen'] != base)]
+        if got != want:
+            return Verdict('spec', case, 'a query on a shared Licensing returns something else than when run alone (%s on nested expression objects; the other thread ran while this one had changed a setting all threads share)' % qname,
+                           impl=[g[:2] if g[0] != 'ok' else ['ok', str(g[1])[:60]] for g in got],
+                           model=[g[:2] if g[0] != 'ok' else ['ok', str(g[1])[:60]] for g in want], tags=tags)
+        if after != base:
+            return Verdict('spec', case, 'after two overlapping queries a setting that all threads share is not what it was',
+                           impl=[x for x in after if x not in base][:4], model=[x for x in base if x not in after][:4], tags=tags)
+        return Verdict('ok', case, impl=got[0][0], nontrivial=True, tags=tags)
+
     DEEP = [12, 120, 600]
 
     @staticmethod
@@ -268,6 +339,8 @@ class Prop(BaseProp):
         return Verdict('ok', case, impl=got[0][0], nontrivial=True, tags=['deep', 'deep=%d:%s' % (depth, got[0][0])])
 
     def eval_case(self, drv, case, solo_cache={}):
+        if case.get('scn', 'first') == 'adaptive':
+            return self.eval_adaptive(drv, case)
         if case.get('scn', 'first') == 'simple':
             return self.eval_simple(drv, case)
         if case.get('scn', 'first') == 'deep':
@@ -354,6 +427,10 @@ class Prop(BaseProp):
                     for which in ('tokenize', 'parse', 'combine'):
                         for k in range(0, 260, 1 if tier == 'thorough' else 2):
                             cases.append({'table': ti, 'ks': [k], 'scn': 'simple', 'pair': pi, 'call': which})
+            if ti == 0:
+                for depth in self.DEEP[1:]:
+                    for qi in range(4):          # the listings and the key validation (stepping line by line through dedup or simplify of a deep tree takes minutes)
+                        cases.append({'table': ti, 'ks': [0], 'scn': 'adaptive', 'depth': depth, 'query': qi})
             # queries on deeply nested expression objects: all pairs of preemption points of two short calls (a sample in the quick tier)
             if ti == 0:
                 for depth in self.DEEP:
@@ -363,6 +440,7 @@ class Prop(BaseProp):
                             pairs = [p for j, p in enumerate(pairs) if (j + qi + depth) % 11 == 0]
                         for a, b in pairs:
                             cases.append({'table': ti, 'ks': [a, b], 'scn': 'deep', 'depth': depth, 'query': qi})
+                        for a, b in pairs:
                             cases.append({'table': ti, 'ks': [a, b], 'scn': 'deep', 'depth': depth, 'query': qi, 'from_end': True})
             # the index loaders, preempted before each of their lines (every third line in the quick tier)
             for which in ('spdx', 'scancode'):
